@@ -6,6 +6,8 @@ import (
 	"go/token"
 	"go/types"
 	"strings"
+
+	"golang.org/x/tools/go/packages"
 )
 
 // ---- C06: let bindings and parameters.
@@ -165,6 +167,11 @@ func ruleC06(p *Program, r *Run) {
 	x := g.xParamOf(we)
 	xk := p.ObjKey(x)
 	lookups := 0
+	// the identifier case and the helpers it was split into
+	var identRegion []ast.Node
+	if cc := typeCaseOf(info, we, "*parser.QualifiedIdent"); cc != nil {
+		identRegion = p.regionOf(pkg, cc)
+	}
 	for _, fd := range AllFuncs(pkg) {
 		ast.Inspect(fd.Body, func(nn ast.Node) bool {
 			ix, ok := nn.(*ast.IndexExpr)
@@ -175,7 +182,7 @@ func ruleC06(p *Program, r *Run) {
 				return true
 			}
 			lookups++
-			if fd != we {
+			if fd != we && !p.onlyCalledFrom(pkg, fd, identRegion) {
 				r.Fail("C06/one-reader", fmt.Sprintf("%s consults the scope", FuncName(pkg, fd)), p.Pos(ix.Pos()), "the scope is consulted outside the identifier case of the expression writer: something other than an unquoted, unqualified identifier could be substituted")
 			}
 			return true
@@ -464,4 +471,62 @@ func (p *Program) reachesWriter() map[*types.Func]bool {
 	}
 	p.reachWriter = reaches
 	return reaches
+}
+
+// onlyCalledFrom: fd is one of the helpers of the region and every call of it in the package lies inside the region.
+func (p *Program) onlyCalledFrom(pkg *packages.Package, fd *ast.FuncDecl, region []ast.Node) bool {
+	inRegion := func(n ast.Node) bool {
+		for _, root := range region {
+			if n.Pos() >= root.Pos() && n.End() <= root.End() {
+				return true
+			}
+		}
+		return false
+	}
+	if fd.Body == nil || !inRegion(fd.Body) {
+		return false
+	}
+	fn, _ := pkg.TypesInfo.Defs[fd.Name].(*types.Func)
+	if fn == nil {
+		return false
+	}
+	ok := true
+	for _, other := range AllFuncs(pkg) {
+		ast.Inspect(other.Body, func(n ast.Node) bool {
+			switch v := n.(type) {
+			case *ast.CallExpr:
+				if Callee(pkg.TypesInfo, v) == fn && !inRegion(v) {
+					ok = false
+				}
+			case *ast.Ident:
+				// the function used as a value escapes the region
+				if pkg.TypesInfo.Uses[v] == fn && !p.isCallFun(pkg, other, v) {
+					ok = false
+				}
+			}
+			return true
+		})
+	}
+	return ok
+}
+
+// isCallFun: id is (the selector of) the function position of a call expression inside fd.
+func (p *Program) isCallFun(pkg *packages.Package, fd *ast.FuncDecl, id *ast.Ident) bool {
+	found := false
+	ast.Inspect(fd.Body, func(n ast.Node) bool {
+		if call, ok := n.(*ast.CallExpr); ok {
+			switch f := ast.Unparen(call.Fun).(type) {
+			case *ast.Ident:
+				if f == id {
+					found = true
+				}
+			case *ast.SelectorExpr:
+				if f.Sel == id {
+					found = true
+				}
+			}
+		}
+		return !found
+	})
+	return found
 }
